@@ -1,5 +1,6 @@
 import Cherab.Model.Rates
 import Cherab.Gen.OpenAdasPolicy
+import Cherab.Props.C07
 
 /-!
 # C07 — obligations over the tables generated from the current source (`Cherab/Gen/OpenAdasPolicy.lean`)
@@ -100,5 +101,55 @@ theorem eval_params_known : ∀ c ∈ rateClasses, ∀ p ∈ c.evalParams, p ∈
 /-- which `log10` computes the knots (float-gap switch used by the correspondence harness): today NumPy's in every
 constructor while `evaluate` uses libm's -/
 theorem axis_logs_numpy : ∀ c ∈ rateClasses, c.isNull = true ∨ c.axisLogNumpy = true := by decide
+
+/-- **isotope → element**, all thirteen accessors (no deviant): every species argument reaches the repository as its
+element and none as requested -/
+theorem isotope_policy_table :
+    ∀ a ∈ accessors, (a.getArgs.all fun x => match x with
+        | Src.raw p => !a.species.contains p
+        | _ => true) = true ∧ (a.species.all fun p => a.getArgs.contains (Src.elem p)) = true := by decide
+
+/-- **wavelength of the requested species**, every photon accessor except the known deviant -/
+theorem wavelength_policy_table :
+    ∀ a ∈ accessors, a.name = "thermal_cx_pec" ∨ (match a.wl with
+      | none => true
+      | some c => match c.species with
+        | Src.raw p => a.species.contains p
+        | _ => false) = true := by decide
+
+/-- **missing-data clause on today's table**: every accessor outside the excuse list raises `RuntimeError` on missing
+data, or returns its Null rate when nulls were requested — `policy_uniform_partial` fed into `missing_policy` -/
+theorem missing_policy_table (a : Accessor) (ha : a ∈ accessors) (hn : a.name ∉ knownPolicyDeviants) (c : Call)
+    (hmiss : c.stored.contains (keyOf a c) = false) :
+    run nullSigs wavelengthPolicy a c =
+      if c.nullRequested then Result.null a.nullInList else Result.raises "RuntimeError" := by
+  rcases policy_uniform_partial a ha with hu | hd
+  · exact Cherab.Props.C07.missing_policy nullSigs wavelengthPolicy a c hu hmiss
+  · exact absurd hd hn
+
+/-- the three deviants, on today's table, through the general deviation theorems -/
+theorem recombination_pec_null_request_still_raises (c : Call)
+    (hmiss : c.stored.contains (keyOf acc_recombination_pec c) = false) :
+    run nullSigs wavelengthPolicy acc_recombination_pec c = Result.raises "RuntimeError" :=
+  Cherab.Props.C07.wrong_except_clause_defeats_null _ _ _ c rfl rfl (by decide) hmiss
+
+theorem beam_cx_pec_null_request_typeerror (c : Call) (hnull : c.nullRequested = true)
+    (hmiss : c.stored.contains (keyOf acc_beam_cx_pec c) = false) :
+    run nullSigs wavelengthPolicy acc_beam_cx_pec c = Result.raises "TypeError" :=
+  Cherab.Props.C07.bad_null_arity_raises_typeerror _ _ _ c rfl rfl (by decide) (by decide) hnull hmiss
+
+/-- non-vacuity: a concrete call of a uniform accessor with an isotope, data stored for the element, both
+wavelengths stored: the isotope's wavelength converts the element's rates -/
+example :
+    run nullSigs wavelengthPolicy acc_impact_excitation_pec
+      ⟨[⟨"ion", "D", "H", true⟩], [["H"], ["D"]], ["D", "H"], false, false⟩ = Result.rate ["H"] (some "D") false := by
+  decide
+
+/-- … and the deviant: `thermal_cx_pec` converts with the element's wavelength -/
+example :
+    run nullSigs wavelengthPolicy acc_thermal_cx_pec
+      ⟨[⟨"donor_element", "H", "H", false⟩, ⟨"receiver_element", "C13", "C", true⟩], [["H", "C"]], ["C13", "C"], false,
+        false⟩ = Result.rate ["H", "C"] (some "C") false := by
+  decide
 
 end Cherab.Props.C07Table
